@@ -846,3 +846,39 @@ def retrieve(tier, seed, ci, nc, n_other=3000, n_plain=2000, n_sphinx=1500):
 
 PREFORK['retrieve'] = _corpus_prefork
 STREAMS['retrieve'] = retrieve
+
+
+def wrap(tier, seed, ci, nc, count=600):
+    rng = _rng(seed, 'wrap', ci)
+    funcs = [s for s in U('abc', 2) if not any(p[1] in ('vp', 'vk') for p in s)] + \
+            [s for s in U('ab', 2)]
+    owns = [(), ('d',), ('d', 'e')]
+    for _ in range(count // nc):
+        kind = rng.choice(['decorator', 'decorator', 'wrapper_decorator'])
+        depth = rng.choice([1, 1, 2, 3])
+        own_list = []
+        used = set()
+        for i in range(depth):
+            own = tuple('%s%d' % (n, i) for n in rng.choice(owns))
+            own_list.append(own)
+        fps = rng.choice(funcs)
+        placement = rng.choice(['function', 'function', 'method', 'staticmethod'])
+        if any(p[1] == 'po' for p in fps) and placement == 'method':
+            placement = 'function'
+        yield ('rt:wrap', kind, tuple(own_list), fps, placement)
+    for _ in range(count // nc // 2):
+        k = rng.choice([1, 2, 2, 3])
+        fl = tuple(rng.choice([s for s in U('ab', 2)]) for _ in range(k))
+        yield ('rt:combination', fl)
+
+
+STREAMS['wrap'] = wrap
+
+
+def annot(tier, seed, ci, nc, count=4000):
+    rng = _rng(seed, 'annot', ci)
+    for _ in range(count // nc):
+        yield ('rt:annot', rng.randint(0, 10 ** 9))
+
+
+STREAMS['annot'] = annot
